@@ -94,9 +94,47 @@ def _k(key):
     return (type(key).__name__, str(key))
 
 
+TAGGED = {'tag_int': ('internal', 'V1', 'V2', 'v1', 'v2'), 'tag_ext': ('external', 'V1', 'V2', 'v1', 'v2'),
+          'tag_adj': ('adjacent', 'V1', 'V2', 'v1', 'v2'), 'tag_num': ('adjacent', 'I1', 'I2', 1, 2)}
+
+
+def check_tagged(pane, leaf, v, tree):
+    """A declared tag selects one variant: the error must be exactly that variant's own tree on the body (never the tag)."""
+    layout, n1, n2, t1, t2 = TAGGED[leaf]
+    if values.kind(v) != 'map':
+        return expect_leaf(tree, v, 'non-mapping for a tagged union')
+    try:
+        if layout == 'internal':
+            tag = v['x']
+            body = {kk: x for kk, x in v.items() if kk != 'x'}
+        elif layout == 'external':
+            if len(v) != 1:
+                return 'skip'
+            (tag, body), = v.items()
+        else:
+            if set(v) != {'t', 'c'}:
+                return 'skip'
+            tag, body = v['t'], v['c']
+    except (KeyError, TypeError):
+        return 'skip'
+    which = n1 if (type(tag) is type(t1) and tag == t1) else n2 if (type(tag) is type(t2) and tag == t2) else None
+    if which is None:
+        return 'skip'
+    V = grammar._ext(which)
+    tr = alone(pane, V, body)
+    if tr is None:
+        return f"tagged union rejected the value although variant {which} accepts the body {body!r}"
+    if not trees.node_eq(tree, tr):
+        return (f"tag {tag!r} selects {which}: the error must be that variant's own tree on the body "
+                f"{core.srepr(tr, 110)}, got {core.srepr(tree, 110)}")
+    return None
+
+
 def check_root(pane, ast, T, v, tree):
     """Return a description of the first discrepancy, 'skip' if the cell is not judged, or None."""
     k = values.kind(v)
+    if isinstance(ast, str) and ast in TAGGED:
+        return check_tagged(pane, ast, v, tree)
     if isinstance(ast, str):
         if ast in grammar.DC_SPECS:
             return check_dc(pane, grammar.DC_SPECS[ast], T, v, tree)
@@ -332,8 +370,16 @@ def _inside(actual, alts):
     return False
 
 
+def expressions(tier):
+    out = list(grammar.expressions(tier))
+    for leaf in TAGGED:
+        out.append(leaf)
+        out += [['list', leaf], ['dict', 'str', leaf], ['optional', leaf], ['union', 'int', leaf], ['struct', ['k', leaf]], ['tuple', 'int', leaf]]
+    return out
+
+
 def run_shard(shard, tier):
-    return e1.run_shard(shard, tier, judge)
+    return e1.run_shard(shard, tier, judge, expr_fn=expressions)
 
 
 def replay(cell):
